@@ -129,6 +129,15 @@ Theorem C07_first_turn_prefix_refuted :
      RObs [(2, 2%Z)]].
 Proof. exact f1_refuted. Qed.
 
+(* ---- the executable checker (family 7: clauses 701-705, 710-712) accepts the model's own
+        history, for every script, every manager and every list of calls; hypotheses as for
+        chk_C01_model in Props/P_C01.v ---- *)
+Theorem chk_C07_model : forall sc k cs,
+  wf_script k sc = true -> forallb (wf_call k) cs = true ->
+  let r := ss_run sc k (init (ss_init sc)) cs in
+  chk_hist sc k 7 ghost0 cs (fst r) (s_steps (m_sim (snd r))) (s_reads (m_sim (snd r))) = 0%Z.
+Proof. exact chk_C07_model_all. Qed.
+
 Example C07_nonvacuous :
   let t := trace (script_sim nv_sc) MTurn (init (ss_init nv_sc)) Fresh nv_cs in
   in_protocol t /\ done_stable (script_sim nv_sc) /\
@@ -150,3 +159,4 @@ Print Assumptions C07_progress_dyn.
 Print Assumptions C07_turn_search_terminates.
 Print Assumptions C07_turn_step_returns.
 Print Assumptions C07_first_turn_prefix_refuted.
+Print Assumptions chk_C07_model.
